@@ -46,7 +46,7 @@ ReqVals(b) ==
     [] b = 18 -> {"empty", "vs1", "vs2"}
     [] b = 19 -> {"empty", "vl1", "vl2"}
     [] b \in {20, 30} -> StrAtoms
-    [] b = 23 -> {0, -5, 1, 5000, 2147483647}
+    [] b = 23 -> {0, -5, 5000, 40000, 2147483647}   \* (a 1 ms timeout really expires: not a transmission case)
     [] b = 25 -> {0, 1, -1, 2147483647, -2147483647 - 1}
     [] b = 26 -> {"0", "1.5", "-0.0", "nan", "inf"}
     [] b = 28 -> {"zero", "prepare1", "commit1"}
